@@ -8,6 +8,7 @@ R3 forget_one: root exempt first; saturating decrement by the request's count; r
 R4 do_lookup: found -> CAS curr -> curr+1; inserted -> count 1; raced -> fetch_add(1)
 R5 who may write the reference count / remove from the store
 R6 inode-number layout constants (host/virtual fields disjoint and within the VFS limit)
+R1 (cont.) an explicit `return Err` after the lookup counts like `?`; whatever is given back is entry.inode, once
 """
 from pyfbr import core, vf
 from rules import common
@@ -366,3 +367,4 @@ META = {
             "forget_one removes from the store.",
     "note": "Not decided: injectivity/stability of numbers against the host; liveness through open descriptors after unlink.",
 }
+META["text"] += " " + "Also: the reference given back on an error path is the looked-up inode's, once, also for explicit `return Err`."
